@@ -161,6 +161,20 @@ Theorem ml_finish_index_translation_stays_in_range :
                 SolveBounds.ml_tail_chk Sy sxor s0 (ITModel.n s - ITModel.r s) s1 = Some o /\ MLModel.ml_finish sxor s0 fuel perm s = Some o).
 Proof. exact SolveBounds.ml_finish_chk_safe. Qed.
 
+(* ---- the bit macros of of_matrix_dense.h, regenerated from the header on every run (gen/GenSymbol.v, BitsTie.v) ---- *)
+From OFV Require BitsTie.
+From OFV.gen Require GenSymbol.
+Theorem getbit_macro_is_testbit : forall w i, (0 <= w < 4294967296)%Z -> (0 <= i < 32)%Z ->
+  GenSymbol.mod2_getbit w i = Some (if Z.testbit w i then 1%Z else 0%Z).
+Proof. exact BitsTie.getbit_is_testbit. Qed.
+Theorem setbit1_macro_sets_the_bit : forall w i, (0 <= w < 4294967296)%Z -> (0 <= i < 31)%Z ->
+  GenSymbol.mod2_setbit1 w i = Some (Z.lor w (2 ^ i)).
+Proof. exact BitsTie.setbit1_is_setbit_below_31. Qed.
+(* bit 31: `1 << 31` overflows int; ISO C leaves it undefined, gcc/clang wrap, and Dense.v models the wrap: the one
+   language-level assumption of the dense model, stated instead of hidden *)
+Theorem setbit1_macro_at_bit_31_is_outside_iso_c : forall w, GenSymbol.mod2_setbit1 w 31 = None.
+Proof. exact BitsTie.setbit1_at_31_is_undefined_in_iso_c. Qed.
+
 Print Assumptions solver_stays_within_the_matrix_given.
 Print Assumptions ml_finish_index_translation_stays_in_range.
 Print Assumptions popcount_array_correct.
